@@ -84,6 +84,12 @@ def dumpLog (pst : PSt) : String :=
   -- the entries whose login would still be valid
   joinOr "," (sortStrs ((pst.log.filter (fun l => authLive pst.st.db.timeout pst.st.now (l.t, l.host))).map (fun l => toString l.uid ++ ":" ++ toString l.t ++ ":" ++ enc l.host ++ ":" ++ enc l.origin)).eraseDups)
 
+/-- logins on the wire: the times ("-" or comma-separated) and the hostmasks, in step -/
+def decAuth (ts hs : String) : Option (List (Int × Str)) := do
+  let hs ← decList hs
+  let ts ← if ts = "-" then some [] else (ts.splitOn ",").mapM (fun t => t.toInt?)
+  if ts.length = hs.length then some (ts.zip hs) else none
+
 def dstep (st : St) : List String → St × String
   | ["reset", t] =>
     match t.toInt? with
@@ -96,6 +102,8 @@ def dstep (st : St) : List String → St × String
   | ["addhost", id, h] => doOp st (do pure (Op.addHost (← id.toNat?) (← dec h)))
   | ["rmhost", id, h] => doOp st (do pure (Op.rmHost (← id.toNat?) (← dec h)))
   | ["identify", id, h] => doOp st (do pure (Op.identify (← id.toNat?) (← dec h)))
+  | ["pruned", id, ts, hs] => doOp st (do pure (Op.pruned (← id.toNat?) (← decAuth ts hs)))
+  | ["logout", id] => doOp st (do pure (Op.logout (← id.toNat?)))
   | ["unidentify", id] => doOp st (do pure (Op.unidentify (← id.toNat?)))
   | ["rename", id, n] => doOp st (do pure (Op.rename (← id.toNat?) (← dec n)))
   | ["secure", id, b] => doOp st (do pure (Op.secure (← id.toNat?) (← decBool b)))
